@@ -173,3 +173,45 @@ Example canon_example :
   g_nodes strG (graph_canon strG (cs_g strG sys_pc)) = [NOut strG; NComp strG central; NComp strG periph] /\
   names_distinct strG (cs_g strG sys_pc) = true /\ cs_ok strG (cs_canon strG sys_pc) = true.
 Proof. repeat split; vm_compute; reflexivity. Qed.
+
+(* the dataset hypotheses are satisfiable together, non-trivially: an 8 character row "hash" that
+   separates the rows of two given frames, reprs that can be read off the front of a text *)
+Definition ex_rowhash (r : list cell) : string :=
+  if list_eqb cell_same r [CFloat 0%Z] then "row....0" else
+  if list_eqb cell_same r [CFloat 1%Z] then "row....1" else
+  if list_eqb cell_same r [CFloat 2%Z] then "row....2" else "row....x".
+Example two_frames_example :
+  (forall r, String.length (ex_rowhash r) = 8) /\
+  rows_sep ex_rowhash (f_rows frame_range3) (f_rows frame_labels3) /\
+  frame_equals frame_range3 frame_labels3 = true /\ ds_input_same frame_range3 frame_labels3 = false /\
+  ds_input_same frame_l101 frame_l101' = true.
+Proof.
+  repeat split; try (vm_compute; reflexivity).
+  - intros r. unfold ex_rowhash.
+    destruct (list_eqb cell_same r [CFloat 0%Z]); [reflexivity|].
+    destruct (list_eqb cell_same r [CFloat 1%Z]); [reflexivity|].
+    destruct (list_eqb cell_same r [CFloat 2%Z]); reflexivity.
+  - intros r r' Hr Hr'. cbn in Hr, Hr'.
+    destruct Hr as [<-|[<-|[<-|[]]]]; destruct Hr' as [<-|[<-|[<-|[]]]]; cbn; intros E; try reflexivity; discriminate.
+Qed.
+
+(* results_json_roundtrip: engines satisfying the four hypotheses (a table / a log is a text token),
+   and a results object with every supported attribute kind *)
+Definition tok_json (s : string) : list (pkey * pyv) := [(KStr "data", PStr s)].
+Definition tok_read (d : list (pkey * pyv)) : option string := match dget "data" d with Some (PStr s) => Some s | _ => None end.
+Example results_roundtrip_example :
+  (forall t, tok_read (norm_items (tok_json t)) = Some t) /\
+  (forall t k, reserved_key k = true -> dget k (norm_items (tok_json t)) = None) /\
+  let r := mkResults string string "pharmpy.tools.modelfit.results" "ModelfitResults"
+             [("__version__", FPlain _ _ (PStr "1.2.0")); ("ofv", FPlain _ _ (PFloat (FFin (3 # 2))));
+              ("parameter_estimates", FSeries _ _ "series-1"); ("covariance_matrix", FFrame _ _ "frame-1");
+              ("log", FLog _ _ "log-1"); ("warnings", FPlain _ _ (PList [PStr "w"; PDict [(KStr "k", PNone)]]))] in
+  results_supported string string r = true /\
+  exists p, encode_results string tok_json string tok_json r = Some p /\
+            decode_results string tok_read string tok_read (normalise p) = Some r.
+Proof.
+  split; [reflexivity|]. split.
+  - intros t k R. cbn. destruct (String.eqb k "data") eqn:E; [|reflexivity].
+    apply String.eqb_eq in E. subst. discriminate.
+  - cbn zeta. split; [reflexivity|]. eexists. split; vm_compute; reflexivity.
+Qed.
